@@ -12,107 +12,206 @@ Definition show_fres (r : fres) : string :=
   end.
 Definition check (rs : list rune) : string := digest (show_fres (format_res rs)).
 Definition full (rs : list rune) : string := show_fres (format_res rs).
-Eval vm_compute in ("<<<M266>>>" ++ check (runes_of_ascii "packet metadata { repeat f64 // " ++ [128512]%N ++ runes_of_ascii " emoji
-Foo , repeat
-Logon
-    f32a`
-` , @calculatedFrom( ""1"" ) repeat
-    uint8 // trailing space 
-calculatedFrom `u8 x,`
-, char[]
-    packetx , // packet A { u8 x, }
-@calculatedFrom(
-""abc"" ) Pad
-@lengthOf(msg_type  )`line1
-line2` ,
-@rightPad
-(
-' ' )
-tag`" ++ [233]%N ++ runes_of_ascii "` ,@tag( 10
-    /// triple
-    )u8x
-@calculatedFrom( ""CRC32"" ),match
-// trailing space 
-// trailing space 
-metadata
-as msg_type
-//
-// " ++ [27880; 37322]%N ++ runes_of_ascii "
-{[
-""\n"" //x
-, 0123456789// c
-] : options1
+Eval vm_compute in ("<<<M1806>>>" ++ check (runes_of_ascii "
+MetaData	chars{
+
+int8 Z9_
+	, float
+
+    rootA 
+`tab	here`	// @lengthOf(
+    	, 
+  //x
+  	// @lengthOf(
+
+	T
+o 
+`it's`
+	,
+    roots int, // c
+		repeatCount
+MetaDataX
 ,
-    ""\n""
+    float32
+	falsey 
+`say ""hi""`
+
+    , }  packet  msg_type{
+
+repeat	f32
+o	// `tick` ""quote"" 'q'
+    , @tag( 0
+)
+
+    char[]
+
+A
+	,
+
+repeat
+
+char[] tag `say ""hi""` 
+,
+repeat char[	0
+
+]	Z9_ 
+,zchar[ 1
+]
+	lengthOf ,
+i64 T
+
+    ,	match
+float 
+as
+leftPad
+	{
+
+007
     :
-    float ,},} packet
-// " ++ [128512]%N ++ runes_of_ascii " emoji
-// " ++ [128512]%N ++ runes_of_ascii " emoji
-MetaDataX {string string_ `doc`
+
+    len  /// triple
+	,	""it's"" :len
+,""it's"" 
+: 	 // @lengthOf(
+float	[  255,
+
+00
+,  ""abc""  , ""abc""
+
+, 1
+    ,""" ++ [28040; 24687]%N ++ runes_of_ascii """	// `tick` ""quote"" 'q'
+    , 
+""x y""
+    ,	"""" // a // b
+    ]
+    : 
+_x
+	, """"	:
+len
+
 ,
-@rightPad
-    (
-    '0' ) zchar[
-// " ++ [128512]%N ++ runes_of_ascii " emoji
+    ""\" ++ [233]%N ++ runes_of_ascii """	:  // a // b
+	i64_ , //	t
+    }
+
+    , 
+roots {
+char[1 ] 	 // @lengthOf(
+  Header @lengthOf( x_y_z )  ,  body u128
+
+, // `tick` ""quote"" 'q'
+	char[] 
+float 
+,  chars @lengthOf(
+    x )`doc`
+
+,
+}
+, 
+crc `it's` 
 // `tick` ""quote"" 'q'
-00 ]
-zchar `a\`
-,} options {leftPad = 0 float = 4294967296 ;
-}// `tick` ""quote"" 'q'
-root packet body{ @calculatedFrom( ""1"" ) @lengthOf( int ) match float as Z9_  {
-// packet A { u8 x, }
-// trailing space 
-42
-: x
-""packet"" :// `tick` ""quote"" 'q'
-matchKey	, """ ++ [28040; 24687]%N ++ runes_of_ascii """
-/// triple
-// packet A { u8 x, }
-: o ,	255 :	float }
-, @tag( 0123456789 ) match	calculatedFrom as // @lengthOf(
-trueish { [ ""packet"" , ""`tick`"" //x
-,	""" ++ [233]%N ++ runes_of_ascii "t" ++ [233]%N ++ runes_of_ascii """ ] : MetaDataX 4294967296 :trueish
-, 3 :
-// trailing space 
-// packet A { u8 x, }
-i64_ , 0123456789 :
-f32a , [ 7, //	t
-10	,	""CRC32"" ,	""x y"" , ""\n""
-    // `tick` ""quote"" 'q'
-    , ""CRC32""
-    , ""`tick`""
-    ]// `tick` ""quote"" 'q'
-: body , }, char[ 1//
-]Foo // " ++ [128512]%N ++ runes_of_ascii " emoji
-, @rightPad( ' ' ) @calculatedFrom( // " ++ [27880; 37322]%N ++ runes_of_ascii "
-""a	b""
-) repeat string_ { repeat Logon // @lengthOf(
-,	Z9_	i8i8 ,match Z9_ as
-    A {[ 42
-    ] :Logon , [ ""CRC32"" , 1 , ""a\""b"" , 4294967296 , 0, ""\" ++ [233]%N ++ runes_of_ascii """ ] : roots ""a\""b"" : MetaDataX , 255
-: _x
-,
-    65535
-    :
-    rootA , }	,match _x as Foo {[ 255
-    , """ ++ [28040; 24687]%N ++ runes_of_ascii """ ,// packet A { u8 x, }
-""CRC32"" ,
-    // c
-    """ ++ [233]%N ++ runes_of_ascii "t" ++ [233]%N ++ runes_of_ascii """ ,
-    ""abc"" ] : len""a\\""
-: Pad  0
-: falsey,3 :	u128
+	  , @calculatedFrom(
+
+""" ++ [128512]%N ++ runes_of_ascii """ ) BodyLength
+`" ++ [28040; 24687; 31867; 22411]%N ++ runes_of_ascii "` ,}
+packet	u128
+
+{lengthOf,
+
+    pack @lengthOf( u8x // c
+    )
+	`// not a comment`  // " ++ [27880; 37322]%N ++ runes_of_ascii "
+
+	,
+
+@leftPad (
+' ') 
+float
+	{
+match
+	asx as 
+charz
+
+    {
+
+[ 
+4294967296	,""""	, 255
     ,
-} ,// a // b
-} , repeat // packet A { u8 x, }
-options1 int `{ , }`
-// packet A { u8 x, }
-//
-,
-}")).
-Eval vm_compute in ("<<<M383>>>" ++ check (runes_of_ascii "options {
-	StringPrefixLenType = u16;
-	ArrayPrefixLenType = u16;
+
+42 
+, ""1"" ] :u8x ""{,}""
+	: Foo
+42:
+
+    leftPad  [	// trailing space 
+255 , 
+// " ++ [128512]%N ++ runes_of_ascii " emoji
+    ""a\""b"", 
+""it's""
+	,4294967296
+    ]
+	: stringy ,
+
+3 :
+Header
+    ,
+
+    } 
+,match o 	 // `tick` ""quote"" 'q'
+	as
+    Pad  
+  // trailing space 
+  	{
+    3
+
+: i64_  //x
+    , } ,  repeat
+string	msg_type,
+
+match packetx// " ++ [27880; 37322]%N ++ runes_of_ascii "
+  	as 
+lengthOf
+{ 
+[ ""x y"" ,""""	]:
+x_y_z 
+	    // " ++ [27880; 37322]%N ++ runes_of_ascii "
+  // c
+  } ,
+    }, i64
+
+    float	,	repeat
+	zchar[
+    3
+]	rootA `crlf
+line`	,
+    match  msg_type
+	as
+
+    len{
+	""CRC32""
+
+:
+MetaDataX
+    ,
+	}	,f32
+
+    A
+    , char[
+	0123456789
+    ]
+    chars // " ++ [27880; 37322]%N ++ runes_of_ascii "
+      `{ , }`
+,	/// triple
+	@calculatedFrom( ""a\""b""
+	)
+
+    string  string_`" ++ [233]%N ++ runes_of_ascii "`	, 
+}
+
+")).
+Eval vm_compute in ("<<<M385>>>" ++ check (runes_of_ascii "options {
+    StringPrefixLenType = u16;
+    ArrayPrefixLenType = u16;
 }
 
 packet SampleBinary {
@@ -125,12 +224,12 @@ packet SampleBinary {
         4 : RiskControlRequest,
         5 : RiskControlResponse,
     },
-        @calculatedFrom(""CRC32"")
+    @calculatedFrom(""CRC32"")
     u32 Ckecksum `" ++ [26657; 39564; 21644]%N ++ runes_of_ascii "`,
 }
 
 packet Logon {
-     @leftPad('0')
+    @leftPad('0')
     char[10] UserName `" ++ [29992; 25143; 21517]%N ++ runes_of_ascii "`,
     string Password `" ++ [23494; 30721]%N ++ runes_of_ascii "`,
     uint64 ClientId `" ++ [23458; 25143; 31471]%N ++ runes_of_ascii "ID`,
@@ -138,7 +237,7 @@ packet Logon {
 }
 
 packet Logout {
-      @rightPad('0')
+    @rightPad('0')
     char[10] UserName `" ++ [29992; 25143; 21517]%N ++ runes_of_ascii "`,
     uint64 ClientId `" ++ [23458; 25143; 31471]%N ++ runes_of_ascii "ID`,
 }
@@ -157,10 +256,10 @@ packet RiskControlRequest {
     u32 Qty `" ++ [25968; 37327]%N ++ runes_of_ascii "`,
     repeat string ExtraInfo `" ++ [38468; 21152; 20449; 24687]%N ++ runes_of_ascii "`,
     repeat SubOrder {
-    		char[16] ClOrdID `" ++ [23376; 35746; 21333; 21495]%N ++ runes_of_ascii "`,
-    		u64 Price `" ++ [23376; 35746; 21333; 20215; 26684]%N ++ runes_of_ascii "`,
-    		u32 Qty `" ++ [23376; 35746; 21333; 25968; 37327]%N ++ runes_of_ascii "`,
-    	},
+        char[16] ClOrdID `" ++ [23376; 35746; 21333; 21495]%N ++ runes_of_ascii "`,
+        u64 Price `" ++ [23376; 35746; 21333; 20215; 26684]%N ++ runes_of_ascii "`,
+        u32 Qty `" ++ [23376; 35746; 21333; 25968; 37327]%N ++ runes_of_ascii "`,
+    },
 }
 
 packet RiskControlResponse {
@@ -174,522 +273,493 @@ packet Detail {
     string RuleName `" ++ [35268; 21017; 21517; 31216]%N ++ runes_of_ascii "`,
     u16 Code `" ++ [21407; 22240; 20195; 30721]%N ++ runes_of_ascii "`,
 }")).
-Eval vm_compute in ("<<<M149>>>" ++ check (runes_of_ascii "// trailing space 
-packet
-    charz {	@calculatedFrom( ""1""
-)match x
-as tag
-    {	[
-7 , // @lengthOf(
-0
-, 65535	,
-    // `tick` ""quote"" 'q'
-    ""it's""/// triple
-,0
-    ,
-""x y"", 255 ] :tag  , [ ""1"" // a // b
-, //	t
-3  , 007, // " ++ [27880; 37322]%N ++ runes_of_ascii "
-255 ,  ""x y""
-    // @lengthOf(
-    ] :pack ,[""" ++ [233]%N ++ runes_of_ascii "t" ++ [233]%N ++ runes_of_ascii """	, 7  , 10  , 3
-, 0
-    , ""a\""b"" ] :
-    // packet A { u8 x, }
-    leftPad, [ 65535
-    // " ++ [27880; 37322]%N ++ runes_of_ascii "
-    ,
-""x y""]
-: chars [ ""\n"" ,65535 , ""a\\""
-] :
-A	, ""\n"" :
-    lengthOf , } ,
-match string_
-    as	i8i8 { 7 :msg_type , // c
-""abc"" :
-tag ,""a\""b"" :metadata, 255
-    : matchKey	,
-    [""CRC32"" ,""1""
-// " ++ [27880; 37322]%N ++ runes_of_ascii "
-// " ++ [128512]%N ++ runes_of_ascii " emoji
-, 007 , ""packet"" ,""a\\"" /// triple
-,	""a\""b""
-    // " ++ [128512]%N ++ runes_of_ascii " emoji
-    , 007 , 4294967296 ] : lengthOf , }
-,uint16
-pack , string Pad@lengthOf( o ) `say ""hi""` ,repeat i8 body
-    ,
-@lengthOf( //x
-crc ) float64 body `// not a comment`
-, repeat rootA { int16 x_y_z `tab	here` ,
-falsey @calculatedFrom( ""{,}"" ), trueish @lengthOf(
-crc) `{ , }` , }
-, match Pad as
-Header
-{
-    4294967296: Header,""\n"" :msg_type,""a	b"" :
-    x_y_z
-    , }
-,
-    //	t
-    Logon
-, } 	 ")).
-Eval vm_compute in ("<<<M289>>>" ++ check (runes_of_ascii "options  {
-// " ++ [27880; 37322]%N ++ runes_of_ascii "
+Eval vm_compute in ("<<<M129>>>" ++ check (runes_of_ascii "packet
+MetaDataX { metadata trueish`" ++ [233]%N ++ runes_of_ascii "`
 //x
-float // packet A { u8 x, }
-=char[]
-    // @lengthOf(
-    ; Header = false
-//
-/// triple
-}
-    // `tick` ""quote"" 'q'
-    options {	x =char[] ; }	MetaData i64_{f64 As
+//x
+,// trailing space 
+@calculatedFrom(""`tick`"" )uint8x
+    // c
+    @calculatedFrom(  """ ++ [128512]%N ++ runes_of_ascii """  ) `{ , }`
+    , @calculatedFrom( ""a\""b"" ) // packet A { u8 x, }
+match Packet as
+    body { 3
+    : repeatCount
+,""x y""
     /// triple
-    `
-` , repeatCount MetaDataX
-// `tick` ""quote"" 'q'
-// `tick` ""quote"" 'q'
-,
-repeatCount u128 //x
-,	metadata msg_type `tab	here`
+    :lengthOf// `tick` ""quote"" 'q'
+4294967296 :
+    packetx
+    , [ ""abc""
+, ""// no comment""
     ,
-    }
-packet  options1
-    {
-    repeat char[0123456789] T  , @tag(  65535
-)
-    //x
-    @calculatedFrom( ""CRC32""
-) @calculatedFrom( """ ++ [28040; 24687]%N ++ runes_of_ascii """ ) repeat string
-Logon
-    ,	@lengthOf( u128 )
-stringy  {string_ x ,
-} , @tag( // " ++ [27880; 37322]%N ++ runes_of_ascii "
-10) u64 tag @lengthOf(roots), Foo	@lengthOf(
-Foo
-)`// not a comment` ,
-string pack `a\` , match A
-    as charz {
-[ 3 ] : x ,} ,@tag(42 ) f64 msg_type @lengthOf(
-trueish )
-,match	pack /// triple
-as
-options1 { """ ++ [28040; 24687]%N ++ runes_of_ascii """ : // packet A { u8 x, }
-string_ ,	[ 65535, 7 ,
-""a\""b""
-    , 7]//	t
-: f32a 4294967296: o ,  }	,
-    char[] falsey ,
-} // " ++ [128512]%N ++ runes_of_ascii " emoji")).
-Eval vm_compute in ("<<<M168>>>" ++ check (runes_of_ascii "options
-//x
-// @lengthOf(
-{
-    Foo =""// no comment""
-/// triple
-//	t
-; }
-packet float {
-} packet
-    len { @lengthOf(
-    _x ) stringy{
-    metadata	@calculatedFrom( ""a\\"" )
-, } ,
-//x
-//
-}	packet asx {
-@tag( 0 ) repeat float64
-A`say ""hi""` ,
-//
-// trailing space 
-i16 int
-    `say ""hi""` , @calculatedFrom( """ ++ [128512]%N ++ runes_of_ascii """) lengthOf Header `two words` ,
-f32a
-    zchar , @rightPad
-    ( '0'
-)repeat string_
-    // packet A { u8 x, }
-    chars ``  , @tag( 4294967296)
-    @calculatedFrom( ""a	b"" )repeat
-    msg_type,  @leftPad( ) repeat f64 _x ,	repeat As { Logon @lengthOf(
-calculatedFrom) `two words` ,
-    repeat u64 o `u8 x,`	, } , @calculatedFrom(
-""packet"" ) repeat // @lengthOf(
-uint8 u ,} packet
-uint8x{@leftPad ( '0'
-    )
-//	t
-//x
-zchar[
-// packet A { u8 x, }
-// " ++ [27880; 37322]%N ++ runes_of_ascii "
-255
-    ]	metadata `a\`
-    ,//
-} // `tick` ""quote"" 'q'")).
-Eval vm_compute in ("<<<M90>>>" ++ check (runes_of_ascii "root packet lengthOf
-{ // a // b
-match i64_  as options1{	""// no comment"":
-    // packet A { u8 x, }
-    f32a
-    // @lengthOf(
-    , 65535 :
-    falsey, } ,  @tag(
-0
-)  char[]
-    body
-@lengthOf(  lengthOf ) ,	u64 string_ `it's`,@lengthOf( string_ // packet A { u8 x, }
-)crc {repeat
-zchar[ 3
-] u	,	pack // packet A { u8 x, }
-`a\`// trailing space 
-,char[] crc `` , } //x
-,int16 // packet A { u8 x, }
-metadata `line1
-line2`, }root	packet //	t
-leftPad
-{ repeat	zchar[
-4294967296 //x
-] MetaDataX
-    ,@tag( 10 // `tick` ""quote"" 'q'
-) match  tag as falsey
-{ 7:
-    BodyLength
-, 0 : i64_ ,} , repeat char[ 255
-    // @lengthOf(
-    ] A
-,
-char[ 7]
-trueish @calculatedFrom(	""a\\"" ) `two words`
-// " ++ [128512]%N ++ runes_of_ascii " emoji
-//	t
-, i16
-Logon, }
-")).
-Eval vm_compute in ("<<<M6>>>" ++ check (runes_of_ascii "// `tick` ""quote"" 'q'
-packet As
-{ @rightPad ( '0' ) stringy
-@lengthOf( calculatedFrom),	@tag( 10	) string uint8x `
-` ,	match body // packet A { u8 x, }
-as uint8x {
-    ""it's"" :  rootA , [ 00 ] : leftPad
-    ,
-42 :	MetaDataX , ""a	b"" :  calculatedFrom
-    255
-:trueish	} , repeat	i64 Logon `tab	here` , } options {crc
-= '\x00' ;}
-packet x { @calculatedFrom(
-""a\\""
-    )
-@tag( 42
-) @leftPad	( '0' // c
-) match o	as /// triple
-x_y_z {// packet A { u8 x, }
-[ """ ++ [128512]%N ++ runes_of_ascii """// trailing space 
-, ""x y"" , // c
-0123456789 ,""CRC32"" ,
-//	t
-// packet A { u8 x, }
-""it's""
-, 007
-, 3, 007 // @lengthOf(
-] :	Packet // c
-[	255, ""x y""
-    ] :x_y_z
-    ,
-} , }
-// trailing space 
-")).
-Eval vm_compute in ("<<<M131>>>" ++ check (runes_of_ascii "
-root
-packet
-u8x{ char
-// trailing space 
-// @lengthOf(
-i64_ ,repeat char[1
-] Z9_ , @tag(
-//x
-// " ++ [128512]%N ++ runes_of_ascii " emoji
-42
-) repeat Logon MetaDataX , @leftPad
-    //
-    ( )
-    Foo
-@lengthOf( As
-    ) // " ++ [128512]%N ++ runes_of_ascii " emoji
-, match u128	as //	t
-calculatedFrom {// " ++ [128512]%N ++ runes_of_ascii " emoji
-4294967296:
-BodyLength,
-    3:  A , //
-[ 4294967296//
-, ""packet""] : o	, 65535 : roots } ,
-repeat Pad { uint64 x @calculatedFrom( """ ++ [128512]%N ++ runes_of_ascii """
-    ) , a1 @lengthOf( As)
-    `line1
-line2` ,	repeat string_{repeat uint32 _x	, f32
-MetaDataX `it's`
-    //	t
-    , u64 As  @lengthOf( crc ) , } ,
-    roots , }, zchar[  00] // @lengthOf(
-u128, }
-//	t
-")).
-Eval vm_compute in ("<<<M1887>>>" ++ check (runes_of_ascii "  // top
-	  options 
-    // c0
-  {
-// c1
-      f32a
-
-    // c2
-
-= 
-    // c3
-	  0
-    // c4
-  } 
-// c5
-packet
-        // c6
-
-trueish
-
-// c7
-{ 
-  // c8
-	}
-	// c9
-	MetaData 
-	    // c10
-
-  _x
-// c11
-
-{ 
-  // c12
-    char[ 
-// c13
-	0123456789
-        // c14
-  ] 
-    // c15
-
-zchar
-	// c16
-  , 
-    // c17
-  string  
-      // c18
-crc 
-
-    // c19
-  	, 
-        // c20
-
-	char[
-    // c21
-      1 
-  // c22
-	  ] 
-	    // c23
-options1
-    // c24
-,  
-  // c25
-	uint8 
-
-// c26
-  repeatCount
-// c27
-,
-	// c28
-	} 
-  // c29")).
-Eval vm_compute in ("<<<M294>>>" ++ check (runes_of_ascii "options { rootA = 4294967296 ; falsey = ""a\""b""
-;
-As =
-// @lengthOf(
-/// triple
-""""
-;packetx
-    = ""packet"" i8i8 =true ;
-} // `tick` ""quote"" 'q'
-packet x  { repeat zchar
-rootA , char[]
-    pack  `// not a comment`
-,@tag( 00 )
-@tag( 0123456789)
-u @calculatedFrom( ""packet"" )`u8 x,` , Header{
-    zchar[ 00
-    ] body
-,
-    a1	@calculatedFrom( // " ++ [128512]%N ++ runes_of_ascii " emoji
-""it's"" )
-`" ++ [233]%N ++ runes_of_ascii "`, }, } // " ++ [27880; 37322]%N ++ runes_of_ascii "
-MetaData
-    A // a // b
-{zchar /// triple
-matchKey
-    `` , int64 metadata ,char[] _x //	t
-, }
-")).
-Eval vm_compute in ("<<<M1622>>>" ++ check (runes_of_ascii "MetaData pack {
-    int16 rootA `{ , }`,
-    //	t
-    int16 x,// " ++ [27880; 37322]%N ++ runes_of_ascii "
-    u32 msg_type,
-}
-
-packet i64_ {
+""abc"" ,
+""\n"" //	t
+, ""1""
+]: u128 [ 00 , 65535 ,""x y"" ,""{,}""  ]
+: calculatedFrom ,
+    7 :	i8i8  }, u8x ,match int as	matchKey{
+[1 ,""CRC32""]
     // trailing space 
-    @leftPad('0')
-    @rightPad('\x00')
-    @lengthOf(options1)
-    string body @lengthOf(asx) `" ++ [233]%N ++ runes_of_ascii "`,
-}
-
-options {
-    msg_type = 00;
-}
-
-MetaData stringy {
-    zchar MetaDataX `line1
-    line2`,
-    char[255] len `it's`,
-    f32 pack,
-    uint16 Foo `it's`,
-    int16 i64_ `two words`,
+    :// @lengthOf(
+asx,	}
+    , @lengthOf( // " ++ [128512]%N ++ runes_of_ascii " emoji
+a1) string x `it's` , repeat // @lengthOf(
+char matchKey  ,
+    // a // b
+    @leftPad // trailing space 
+( )@rightPad ( ) match
+metadata	as  Packet { [ 65535  ] : Header , }, @tag( 255)
+zchar[ 3 ] crc `u8 x,` ,} MetaData
+    rootA // trailing space 
+{
+i8i8	Pad , int8
+packetx `{ , }`
+,
+    int8 stringy,
     // `tick` ""quote"" 'q'
-}")).
-Eval vm_compute in ("<<<M1627>>>" ++ check (runes_of_ascii "// top
-    	packet 
-
-// c0
-B
-
-    // c1
-
-{	// c2
-	u8  
-  // c3
-      a 	 // c4
-  , string  // c6
-	s 
-	    // c7
-,}
-	root	// c10
-    	packet 
-    // c11
-  P  // c12a
-  // c12b
-	{
-	    // c13
-	u16 
-	    // c14
-  L	// c15a
-  	// c15b
-	@lengthOf(
-B 
-      // c17
-  ) 
-
-// c18
-  ,
-        // c19
-    B  
-      // c20
-  ,
-u8	// c22a
-    // c22b
-
-t
-    // c23
-		, 	 // c24
-	}
-")).
-Eval vm_compute in ("<<<M1234>>>" ++ check (runes_of_ascii "// top
-options // c0
-{ // c1
-f32a // c2
-= // c3
-0 // c4
-} // c5
-packet // c6
-trueish // c7
-{ // c8
-} // c9
-MetaData // c10
-_x // c11
-{ // c12
-char[ // c13
-0123456789 // c14
-] // c15
-zchar // c16
-, // c17
-string // c18
-crc // c19
-, // c20
-char[ // c21
-1 // c22
-] // c23
-options1 // c24
-, // c25
-uint8 // c26
-repeatCount // c27
-, // c28
-} // c29
-")).
-Eval vm_compute in ("<<<M57>>>" ++ check (runes_of_ascii "packet	tag { }
-packet falsey
-    { string charz @lengthOf(
-    zchar ) ,
-string // trailing space 
-u @calculatedFrom( """ ++ [233]%N ++ runes_of_ascii "t" ++ [233]%N ++ runes_of_ascii """	) `// not a comment`
-, @leftPad( '0' )
-char[] leftPad @calculatedFrom(
-    ""a	b"")`// not a comment` , @calculatedFrom(
-    ""`tick`"" )
-    @lengthOf(roots
-) repeat MetaDataX
-, }
-
-")).
-Eval vm_compute in ("<<<M1580>>>" ++ check (runes_of_ascii "options {
-    LittleEndian = false;
-    StringPrefixLenType = u16;
+    body _x  , body o , }")).
+Eval vm_compute in ("<<<M1934>>>" ++ check (runes_of_ascii "packet pack {
+    @lengthOf(Foo)
+    asx @lengthOf(_x),
+    u8 x_y_z `two words`,
+    repeat zchar[0] roots `
+        `,
+    lengthOf @calculatedFrom(""abc""),
+    @tag(3)
+    @rightPad(' ')
+    @calculatedFrom(""1"")
+    repeat uint64 i64_ `say ""hi""`,
+    @tag(007)
+    match roots as float {
+        ""a	b"" : lengthOf,
+        [
+            1, ""\n"", ""a\""b"", ""\" ++ [233]%N ++ runes_of_ascii """, ""1"",
+            42
+        ] : msg_type,
+        """ ++ [128512]%N ++ runes_of_ascii """ : Foo,
+    },
+    T {
+        match Header as trueish {
+            [
+                0, 3, ""{,}"", ""1"", 00,
+                0123456789, ""// no comment""
+            ] : As,
+        },
+    },
+    repeat char[10] o `
+        `,
+    @calculatedFrom(""`tick`"")
+    repeat crc {
+        repeatCount o,
+        u8x As,
+    },
 }
 
-packet Heartbeat {
-    @rightPad('0')
-    char[7] seqNo,
-    uint64 Tail,
-    i16 Flags,
-    u16 msgKind,
+packet pack {
+    @calculatedFrom(""" ++ [233]%N ++ runes_of_ascii "t" ++ [233]%N ++ runes_of_ascii """)
+    u32 f32a,
 }
 
-root packet Reject {
-    zchar[3] tag7,
-    repeat Heartbeat,
-    repeat string clOrdID,
+MetaData float {
+    u32 options1,
+}
+
+packet f32a {
 }")).
-Eval vm_compute in ("<<<M97>>>" ++ check (runes_of_ascii "packet
-i8i8 { repeat char[	00 ] Pad
-    `a\` ,
-@leftPad
-    (
-'\x00') string	a1@lengthOf(tag )``, float64
-    u128 @calculatedFrom( ""1""
-)  ,	@lengthOf( x
+Eval vm_compute in ("<<<M330>>>" ++ check (runes_of_ascii "root packet
+As {
+} MetaData Pad { string
+    metadata  `// not a comment` ,
+    }
+packet metadata
+    { string	charz
+`a\` , @leftPad ( ' ' )pack@lengthOf(x_y_z ), @calculatedFrom( ""packet"")
+match crc
+    as chars { [ ""packet"" ,7 ]
+    :  repeatCount }
+, Pad @lengthOf( matchKey
+    ),
+@calculatedFrom( ""\n""
+    )int64
+    Z9_ @lengthOf(
+    // a // b
+    _x ),
+@lengthOf(repeatCount// trailing space 
+) repeat float
+{ u128 @lengthOf( zchar) , u8 crc
+, } ,
+    int64 pack, u128
+    `it's` , repeat
+// a // b
+// `tick` ""quote"" 'q'
+i32 T , //	t
+@tag(00 ) rootA  @lengthOf(
+float
     )
-    u128 @lengthOf( tag )
-`" ++ [28040; 24687; 31867; 22411]%N ++ runes_of_ascii "` , int64 u ,
-A//x
-T
-    `say ""hi""`
+,
+} MetaData Header // @lengthOf(
+{u32 u,	string A `crlf
+line` ,
+u16
+    roots `a\` ,int16 chars , }
+packet repeatCount { repeat char[
+// trailing space 
+//x
+65535]
+    x `line1
+line2`
+, }")).
+Eval vm_compute in ("<<<M201>>>" ++ check (runes_of_ascii "packet charz
+{ //	t
+repeat i64_ ,trueish {
+repeat _x
+    ,	repeatCount, repeat u16
+matchKey `
+`
+,
+// " ++ [128512]%N ++ runes_of_ascii " emoji
+// a // b
+matchKey @calculatedFrom( ""a\""b"" )
+`it's` ,}	,
+@tag(
+007 )@calculatedFrom(
+    ""a\\"")	@tag(
+    3 // @lengthOf(
+)f32 f32a @lengthOf(asx ) `crlf
+line` // packet A { u8 x, }
+, repeat i8 string_
+,
+    @lengthOf(
+    // @lengthOf(
+    Logon  ) @lengthOf( x_y_z )
+    @lengthOf(
+zchar
+    ) repeat char[ 65535	] Foo`" ++ [233]%N ++ runes_of_ascii "`,
+@calculatedFrom(//
+""abc""
+) trueish @lengthOf( A )
+// " ++ [27880; 37322]%N ++ runes_of_ascii "
+// a // b
+,char[ 0 ] float , Packet
+    @calculatedFrom( ""a	b""
+), } MetaData
+    Pad { char[ 00 ] leftPad , u8 rootA `
+`,
+//
+// " ++ [128512]%N ++ runes_of_ascii " emoji
+int32
+    a1	`say ""hi""`
+    ,
+Z9_ float , //x
+i32 Pad ,
+}")).
+Eval vm_compute in ("<<<M87>>>" ++ check (runes_of_ascii "root packet matchKey{ match	Foo as Z9_ {// c
+[ ""x y"" , ""1"" ,
+    007
+, 7 ]: pack,
+""`tick`"" :
+u128 ,""a	b"" :msg_type,[
+//
+//
+00 ,	65535
+] : a1, ""it's"" :Foo
+    , // " ++ [128512]%N ++ runes_of_ascii " emoji
+[ //x
+""""
+] : u, } ,
+} packet calculatedFrom // c
+{msg_type {
+    T @calculatedFrom( ""\n"" ) ,float64 i8i8, As`
+`, u32 rootA @lengthOf(
+// c
+// `tick` ""quote"" 'q'
+float
+) ,}
 , }
+    packet
+    // " ++ [27880; 37322]%N ++ runes_of_ascii "
+    x_y_z
+{@tag( //x
+0 ) i64_
+    // " ++ [27880; 37322]%N ++ runes_of_ascii "
+    @lengthOf(
+    //
+    MetaDataX
+) ,	}packet A { @calculatedFrom( ""a\\"" )@calculatedFrom(""abc"" ) _x
+u	`say ""hi""` ,
+    } options
+    // `tick` ""quote"" 'q'
+    { // trailing space 
+metadata = ""a\\"" ; // a // b
+}")).
+Eval vm_compute in ("<<<M1846>>>" ++ check (runes_of_ascii "packet
+    tag  {
+
+    string
+
+matchKey
+`line1
+line2`
+
+    ,
+@tag(
+    0) // c
+		@calculatedFrom(
+""1"") @calculatedFrom(// " ++ [128512]%N ++ runes_of_ascii " emoji
+	""a\""b""
+
+    )
+    float64 matchKey ,  } options{  crc=
+true
+
+msg_type 
+
+//	t
+      =
+true;}
+	packet
+o  { match roots 
+as 
+calculatedFrom	{ ""// no comment""
+// packet A { u8 x, }
+    	:
+msg_type ,""{,}"":
+u128 ,[
+    65535 ,
+	0123456789 ] /// triple
+    :body 
+,	// " ++ [128512]%N ++ runes_of_ascii " emoji
+    },
+
+@rightPad (	' '
+    )	repeat 
+string_ i64_	,
+
+@lengthOf(
+lengthOf  )  @tag(	255  // packet A { u8 x, }
+    )@tag(00
+)  char[]stringy ,
+    }
+")).
+Eval vm_compute in ("<<<M1119>>>" ++ check (runes_of_ascii "// top
+root // c0
+packet // c1
+_x // c2
+{ // c3
+match // c4
+Foo // c5
+as // c6
+Z9_ // c7
+{ // c8
+""a	b"" // c9
+: // c10
+Pad // c11
+, // c12
+} // c13
+, // c14
+repeat // c15
+x // c16
+`line1
+line2` // c17
+, // c18
+@rightPad // c19
+( // c20
+' ' // c21
+) // c22
+@calculatedFrom( // c23
+""a\\"" // c24
+) // c25
+metadata // c26
+MetaDataX // c27
+, // c28
+@tag( // c29
+0 // c30
+) // c31
+Logon // c32
+int // c33
+`` // c34
+, // c35
+} // c36
+options // c37
+{ // c38
+T // c39
+= // c40
+'\x00' // c41
+} // c42
+")).
+Eval vm_compute in ("<<<M1619>>>" ++ check (runes_of_ascii "
+MetaData
+
+    T{
+
+    a1 Packet, // " ++ [128512]%N ++ runes_of_ascii " emoji
+	uint8x 
+        // @lengthOf(
+//x
+  Pad
+    `" ++ [233]%N ++ runes_of_ascii "`  ,a1 
+// " ++ [27880; 37322]%N ++ runes_of_ascii "
+  	MetaDataX
+, zchar[
+	00]
+metadata
+    `u8 x,`	,
+
+Pad  // trailing space 
+	x
+
+`
+`
+,
+	i8
+
+u8x,
+}
+options
+
+{
+
+As
+
+= false	;
+    }
+
+    root packet
+	options1
+{ @calculatedFrom(
+""// no comment""	)
+@lengthOf(_x	)@tag( 007  )
+repeat  
+  // trailing space 
+    // @lengthOf(
+    f32 i8i8	`" ++ [233]%N ++ runes_of_ascii "` 
+,@rightPad(' ' 	 // " ++ [27880; 37322]%N ++ runes_of_ascii "
+  )
+
+    repeat  Pad
+	, }")).
+Eval vm_compute in ("<<<M349>>>" ++ check (runes_of_ascii "root
+packet body {
+    @lengthOf(
+int
+// @lengthOf(
+//x
+)string tag
+    ,	Pad BodyLength , Z9_ {
+    /// triple
+    u `` , zchar[ 7] u ,
+},uint64 calculatedFrom, }packet
+msg_type {match f32a// " ++ [128512]%N ++ runes_of_ascii " emoji
+as pack
+    { ""// no comment"" : trueish
+, }
+    // trailing space 
+    , @calculatedFrom( // @lengthOf(
+""abc""
+)
+    @leftPad (
+' ') @calculatedFrom( """" //x
+) // c
+matchKey T ,// `tick` ""quote"" 'q'
+}
+")).
+Eval vm_compute in ("<<<M1670>>>" ++ check (runes_of_ascii "packet a1 {
+    char[] charz @calculatedFrom(""" ++ [28040; 24687]%N ++ runes_of_ascii """),
+    uint8x `crlf
+    line`,
+    uint64 T `line1
+    line2`,
+    @leftPad('0')
+    // a // b
+    /// triple
+    @calculatedFrom(""abc"")
+    @tag(3)
+    match int as len {
+        0 : chars,
+        [
+            10, ""a\\"", 1, 0, 10,
+            0
+        ] : body,
+        007 : rootA,
+    },
+    falsey options1,
+}")).
+Eval vm_compute in ("<<<M110>>>" ++ check (runes_of_ascii "root // trailing space 
+packet
+leftPad { T
+@lengthOf(A
+) `" ++ [233]%N ++ runes_of_ascii "`,
+    Header
+    @lengthOf( As ) // " ++ [27880; 37322]%N ++ runes_of_ascii "
+,
+string	calculatedFrom `{ , }`
+, @tag( 1) // trailing space 
+u16  x_y_z ,
+@tag( 4294967296
+) x_y_z metadata// " ++ [128512]%N ++ runes_of_ascii " emoji
+,asx { asx `it's`
+    ,} , char[ 65535 ]
+As@lengthOf(
+    Logon ) `a\`
+,@lengthOf(
+Z9_
+    ) string
+BodyLength ,
+}")).
+Eval vm_compute in ("<<<M79>>>" ++ check (runes_of_ascii "packet	Pad //
+{ u32 i64_
+@lengthOf(u8x) `tab	here` , T,
+@tag(
+1) @calculatedFrom(	""CRC32""
+)
+    @leftPad ()
+    match stringy as lengthOf	{[ 255  ,	7
+    ,
+""CRC32""
+,""a	b"" , """ ++ [233]%N ++ runes_of_ascii "t" ++ [233]%N ++ runes_of_ascii """ ,// c
+""a\""b""
+    , ""\n"" ]: falsey  , /// triple
+} ,string i8i8// trailing space 
+@calculatedFrom( """ ++ [128512]%N ++ runes_of_ascii """
+    ) ,packetx, } // c")).
+Eval vm_compute in ("<<<M222>>>" ++ check (runes_of_ascii "packet
+body// @lengthOf(
+{ @lengthOf(
+T
+    // " ++ [27880; 37322]%N ++ runes_of_ascii "
+    ) @lengthOf(
+int ) @leftPad ( '\x00')
+asx//x
+len
+,
+repeat	zchar[ 3] int `" ++ [28040; 24687; 31867; 22411]%N ++ runes_of_ascii "` ,@lengthOf(
+    // @lengthOf(
+    options1)match
+    x
+    as //x
+leftPad // @lengthOf(
+{
+7
+:
+x_y_z , 65535:  u128 , 42 : x ,} , //
+}")).
+Eval vm_compute in ("<<<M234>>>" ++ check (runes_of_ascii "//	t
+options{
+    chars=true As= char[]
+// trailing space 
+// " ++ [128512]%N ++ runes_of_ascii " emoji
+; /// triple
+x_y_z	= 7; // " ++ [27880; 37322]%N ++ runes_of_ascii "
+i8i8 = true packetx = /// triple
+' ' } root packet	x_y_z {repeat
+    char[
+    42
+    //x
+    ] //	t
+Pad,
+    }
+// packet A { u8 x, }
 ")).
 Eval vm_compute in ("<<<M367>>>" ++ check (runes_of_ascii "
 packet roots  { @calculatedFrom( ""a\\"" ) @lengthOf( packetx  ) match repeatCount
@@ -737,21 +807,20 @@ as M2  {
     }
     ,}
 ")).
-Eval vm_compute in ("<<<M283>>>" ++ check (runes_of_ascii "
-root packet /// triple
-u8x {}options { o =	zchar[ 1 ]
-    Packet
-    // trailing space 
-    =u32 ; uint8x =""a\\"";
-    /// triple
-    u8x
-=0
-;
-    crc =""\n"" ; }")).
-Eval vm_compute in ("<<<M443>>>" ++ check (runes_of_ascii "packet uint8x
+Eval vm_compute in ("<<<M1827>>>" ++ check (runes_of_ascii "root packet _x {
+    uint32 trueish @calculatedFrom(""1"") `crlf
+    line`,
+}
+
+//
+packet Header {
+    repeat u64 stringy `// not a comment`,
+    float32 msg_type,
+}")).
+Eval vm_compute in ("<<<M441>>>" ++ check (runes_of_ascii "packet uint8x
 { match pack
     as msg_type	{
-    0123456789 :	@lengthOf(
+    0123456789 :	float float
 }
 ,
 } packet //	t
@@ -759,21 +828,10 @@ a1
     { } options {packetx
     = '\x00'	; u128= ""a	b""  ; }
 ")).
-Eval vm_compute in ("<<<M471>>>" ++ check (runes_of_ascii "packet uint8x
+Eval vm_compute in ("<<<M436>>>" ++ check (runes_of_ascii "packet uint8x
 { match pack
     as msg_type	{
-    0123456789 :	float
-}
-,
-} packet //	t
-a1
-    { { } options {packetx
-    = '\x00'	; u128= ""a	b""  ; }
-")).
-Eval vm_compute in ("<<<M397>>>" ++ check (runes_of_ascii "packet {
-uint8x match pack
-    as msg_type	{
-    0123456789 :	float
+    0123456789 : :	float
 }
 ,
 } packet //	t
@@ -781,252 +839,273 @@ a1
     { } options {packetx
     = '\x00'	; u128= ""a	b""  ; }
 ")).
-Eval vm_compute in ("<<<M1241>>>" ++ check (runes_of_ascii "// top
-root
-    // c0
-packet // c1
-P // c2a
-  // c2b
-{ // c3
-char
-    // c4
-c // c5a
-  // c5b
-, // c6a
-  // c6b
+Eval vm_compute in ("<<<M1475>>>" ++ check (runes_of_ascii "
+
+  // top
+
+packet // c0
+  body // c1
+{ // c2
+i32	// c3
+  f32a  // c4
+    	`{ , }`  // c5
+,  // c6
+  }	// c7
+options  // c8
+  {	// c9
+  } // c10
+")).
+Eval vm_compute in ("<<<M522>>>" ++ check (runes_of_ascii "packet uint8x
+{ match pack
+    as msg_type	{
+    0123456789 :	float
+}
+,
+} packet //	t
+a1
+    { } options {packetx
+    = '\x00'	; u128= ;  ""a	b"" }
+")).
+Eval vm_compute in ("<<<M700>>>" ++ check (runes_of_ascii "// @lengthOf(
+packet i8i8 { u128 o , }
+options { MetaDataX = true true;
+    BodyLength =""packet"" x_y_z= 007
+crc //x
+= ""abc"" ;
+    msg_type =
+i16 }")).
+Eval vm_compute in ("<<<M696>>>" ++ check (runes_of_ascii "// @lengthOf(
+packet i8i8 { u128 o , } }
+options { MetaDataX = true;
+    BodyLength =""packet"" x_y_z= 007
+crc //x
+= ""abc"" ;
+    msg_type =
+i16 }")).
+Eval vm_compute in ("<<<M721>>>" ++ check (runes_of_ascii "// @lengthOf(
+packet i8i8 { u128 o , }
+options { MetaDataX = true;
+    BodyLength =""packet"" x_y_z= 007
+crc //x
+= ""abc"" msg_type
+    ; =
+i16 }")).
+Eval vm_compute in ("<<<M1263>>>" ++ check (runes_of_ascii "
+packet B {u8 
+a ,
+}  root	packet P
+{
+
+    u8
+K, 
+u64	L
+@lengthOf(
+
+Body
+)	, match
+    K
+as
+
+    Body
+{ 1
+
+    : 
+B
+
+,
+}	, }
+
+")).
+Eval vm_compute in ("<<<M1266>>>" ++ check (runes_of_ascii "  packet B
+    {
+u8 a
+	,
+    } 
+root  packet
+
+P {
 u8
-    // c7
-x // c8
-, // c9
-} // c10
+    K  ,
+	match
+    K as Body
+
+{
+1
+
+:  B,
+}  ,
+	u16	L@lengthOf(	Body
+
+) ,
+	}
 ")).
-Eval vm_compute in ("<<<M408>>>" ++ check (runes_of_ascii "packet uint8x
-{ i8 pack
-    as msg_type	{
-    0123456789 :	float
-}
-,
-} packet //	t
-a1
-    { } options {packetx
-    = '\x00'	; u128= ""a	b""  ; }
-")).
-Eval vm_compute in ("<<<M391>>>" ++ check (runes_of_ascii " uint8x
-{ match pack
-    as msg_type	{
-    0123456789 :	float
-}
-,
-} packet //	t
-a1
-    { } options {packetx
-    = '\x00'	; u128= ""a	b""  ; }
-")).
-Eval vm_compute in ("<<<M1288>>>" ++ check (runes_of_ascii "// top
-root
-    // c0
-packet P
-    // c2
-{ // c3a
-  // c3b
-repeat // c4
-string // c5
-ss , // c7
-repeat u16 ns ,
-    // c11
-} // c12a
-  // c12b
-")).
-Eval vm_compute in ("<<<M61>>>" ++ check (runes_of_ascii "packet
-    i64_ { }
-MetaData uint8x {Packet tag , u8	repeatCount
-, x_y_z
-_x `" ++ [233]%N ++ runes_of_ascii "`
-    , zchar[
-    42
-    ]
-    crc
-`a\` ,
-} options	{ }")).
-Eval vm_compute in ("<<<M1470>>>" ++ check (runes_of_ascii "packet A {
-    u8 a,
+Eval vm_compute in ("<<<M1699>>>" ++ check (runes_of_ascii "root packet lengthOf {
+    @leftPad(' ')
+    repeat char MetaDataX,
 }
 
-packet B {
-    u16 b,
-}
-
-root packet P {
-    u8 K,
-    match K as M {
-        1 : A,
-        1 : B,
+MetaData Pad {
+    msg_type rootA `// not a comment`,
+}")).
+Eval vm_compute in ("<<<M970>>>" ++ check (runes_of_ascii "packet A {
+    match k as n {
+        ""x\
+y"" : B,
+        [""x\
+y"", 1] : C,
+        [1,2,3,4,5,""x\
+y""] : D,
     },
 }")).
-Eval vm_compute in ("<<<M1830>>>" ++ check (runes_of_ascii "packet A {
+Eval vm_compute in ("<<<M1173>>>" ++ check (runes_of_ascii "MetaData leftPad { chars MetaDataX , } packet repeatCount { char[ 255 ] uint8x `" ++ [233]%N ++ runes_of_ascii "` , // c
+} MetaData pack { As Foo , }")).
+Eval vm_compute in ("<<<M346>>>" ++ check (runes_of_ascii "MetaData chars {
+x_y_z
+/// triple
+/// triple
+x
+    `line1
+line2` ,_x A`// not a comment`,	} // `tick` ""quote"" 'q'")).
+Eval vm_compute in ("<<<M911>>>" ++ check (runes_of_ascii "packet A {
+  match k as n {
+    [""a"", 22, ""c c"", 4, ""e"", 66, ""g"", 8, ""i"", 10, ""k"", 12] : B
+    2 : C
+  },
+}")).
+Eval vm_compute in ("<<<M683>>>" ++ check (runes_of_ascii "// @lengthOf(
+packet i8i8 { u128 o , }
+options { MetaDataX = true;
+    BodyLength =""packet"" x_y_z= 007")).
+Eval vm_compute in ("<<<M854>>>" ++ check (runes_of_ascii "packet A {
+  match k as n {
+    [""a"", ""bb"", ""c c"", ""d"", ""e"", ""f"", ""g"", ""h""] : B,
+    2 : C
+  },
+}")).
+Eval vm_compute in ("<<<M886>>>" ++ check (runes_of_ascii "packet A {
+  match k as n {
+    [1, 22, ""c c"", 4, 5, ""f"", 7, 8, ""i"", 10] : B,
+    2 : C
+  },
+}")).
+Eval vm_compute in ("<<<M608>>>" ++ check (runes_of_ascii "
+packet
+    asx {match u128 as lengthOf
+{
+//	t
+// `tick` ""quote"" 'q'
+255 : x , ,
+    } ,	}")).
+Eval vm_compute in ("<<<M569>>>" ++ check (runes_of_ascii "
+packet
+    asx {u128 match as lengthOf
+{
+//	t
+// `tick` ""quote"" 'q'
+255 : x ,
+    } ,	}")).
+Eval vm_compute in ("<<<M1851>>>" ++ check (runes_of_ascii "packet A {
     match k as n {
-        [
-            1, 22, 007, 4, 5,
-            66
-        ] : B,
+        [""a"", ""bb"", 007, ""d""] : B,
         2 : C,
     },
 }")).
-Eval vm_compute in ("<<<M1146>>>" ++ check (runes_of_ascii "MetaData leftPad
-// c
-{ chars MetaDataX , } packet repeatCount { char[ 255 ] uint8x `" ++ [233]%N ++ runes_of_ascii "` , } MetaData pack { As Foo , }")).
-Eval vm_compute in ("<<<M1178>>>" ++ check (runes_of_ascii "MetaData leftPad { chars MetaDataX , } packet repeatCount { char[ 255 ] uint8x `" ++ [233]%N ++ runes_of_ascii "` , } MetaData
-// c
-pack { As Foo , }")).
-Eval vm_compute in ("<<<M961>>>" ++ check (runes_of_ascii "packet A {
-    u16 len @lengthOf(body) `tab
-	x`,
-    u32 crc @calculatedFrom(""CRC32"") `tab
-	x`,
-    string body,
-}")).
-Eval vm_compute in ("<<<M881>>>" ++ check (runes_of_ascii "packet A {
-  match k as n {
-    [""a"", ""bb"", ""c c"", ""d"", ""e"", ""f"", ""g"", ""h"", ""i"", ""j""] : B
-    2 : C
-  },
-}")).
-Eval vm_compute in ("<<<M868>>>" ++ check (runes_of_ascii "packet A {
-  match k as n {
-    [""a"", ""bb"", ""c c"", ""d"", ""e"", ""f"", ""g"", ""h"", ""i""] : B
-    2 : C
-  },
-}")).
-Eval vm_compute in ("<<<M900>>>" ++ check (runes_of_ascii "packet A {
-  match k as n {
-    [1, 22, ""c c"", 4, 5, ""f"", 7, 8, ""i"", 10, 11] : B
-    2 : C
-  },
-}")).
-Eval vm_compute in ("<<<M565>>>" ++ check (runes_of_ascii "
-packet
-    asx true match u128 as lengthOf
-{
-//	t
-// `tick` ""quote"" 'q'
-255 : x ,
-    } ,	}")).
-Eval vm_compute in ("<<<M645>>>" ++ check (runes_of_ascii "
-packet
-    asx {match u128 as lengthOf
-{
-//	t
-// `tick` ""quote"" 'q'
-255 : a" ++ [769]%N ++ runes_of_ascii "b ,
-    } ,	}")).
-Eval vm_compute in ("<<<M609>>>" ++ check (runes_of_ascii "
-packet
-    asx {match u128 as lengthOf
-{
-//	t
-// `tick` ""quote"" 'q'
-255 : x }
-    , ,	}")).
-Eval vm_compute in ("<<<M1636>>>" ++ check (runes_of_ascii "packet len {
-    int64 a1 @lengthOf(x_y_z),
-}
-
-// c
-// trailing space 
-packet x_y_z {
-}")).
-Eval vm_compute in ("<<<M553>>>" ++ check (runes_of_ascii "
-
+Eval vm_compute in ("<<<M556>>>" ++ check (runes_of_ascii "
+,
     asx {match u128 as lengthOf
 {
 //	t
 // `tick` ""quote"" 'q'
 255 : x ,
     } ,	}")).
-Eval vm_compute in ("<<<M834>>>" ++ check (runes_of_ascii "packet A {
-  match k as n {
-    [1, 22, ""c c"", 4, 5, ""f""] : B,
-    2 : C
-  },
-}")).
-Eval vm_compute in ("<<<M818>>>" ++ check (runes_of_ascii "packet A {
-  match k as n {
-    [1, ""bb"", 007, ""d"", 5] : B
-    2 : C
-  },
-}")).
-Eval vm_compute in ("<<<M814>>>" ++ check (runes_of_ascii "packet A {
-  match k as n {
-    [1, 22, 007, 4, 5] : B
-    2 : C
-  },
-}")).
-Eval vm_compute in ("<<<M1755>>>" ++ check (runes_of_ascii "MetaData M {
-    u8 x `tab
-        	x`,
-    T t `tab
-        	x`,
-}")).
-Eval vm_compute in ("<<<M2>>>" ++ check (runes_of_ascii "root
-// trailing space 
-// " ++ [27880; 37322]%N ++ runes_of_ascii "
-packet
-u{  } // trailing space ")).
-Eval vm_compute in ("<<<M1754>>>" ++ check (runes_of_ascii "
-
-  root
-
-    packet
-    chars	{
-i16
-    leftPad	,  }
-")).
-Eval vm_compute in ("<<<M1078>>>" ++ check (runes_of_ascii "// a
-MetaData M {} // b
-// c
-MetaData N {} // d
-// e")).
-Eval vm_compute in ("<<<M777>>>" ++ check (runes_of_ascii "packet A { Inner { match k as n { [1] : B, }, }, }")).
-Eval vm_compute in ("<<<M1554>>>" ++ check (runes_of_ascii "options {
-    a = ""\
-    "";
-    b = ""\
-    ""
-}")).
-Eval vm_compute in ("<<<M933>>>" ++ check (runes_of_ascii "MetaData M {
-    u8 x `
-`,
-    T t `
-`,
-}")).
-Eval vm_compute in ("<<<M1669>>>" ++ check (runes_of_ascii "options
-{ Foo
-=
-0123456789
-	;
-	}
-")).
-Eval vm_compute in ("<<<M1574>>>" ++ check (runes_of_ascii "packet A {
-    u8 x `d" ++ [6158]%N ++ runes_of_ascii "`,// c" ++ [6158]%N ++ runes_of_ascii "
-}")).
-Eval vm_compute in ("<<<M1048>>>" ++ check (runes_of_ascii "packet A {
- u8 x `d" ++ [8203]%N ++ runes_of_ascii "`, // c" ++ [8203]%N ++ runes_of_ascii "
-}")).
-Eval vm_compute in ("<<<M929>>>" ++ check (runes_of_ascii "packet A {
-    u8 x `
-`,
-}")).
-Eval vm_compute in ("<<<M51>>>" ++ check (runes_of_ascii "options {} // " ++ [128512]%N ++ runes_of_ascii " emoji")).
-Eval vm_compute in ("<<<M162>>>" ++ check (runes_of_ascii "
-packet f32a  { }
-")).
-Eval vm_compute in ("<<<M1001>>>" ++ check (runes_of_ascii "packet A {
+Eval vm_compute in ("<<<M1305>>>" ++ check (runes_of_ascii "packet orderItem {
+    u8 a,
 }
-// c" ++ [8192]%N)).
-Eval vm_compute in ("<<<M277>>>" ++ check (runes_of_ascii "MetaData i64_ { }")).
-Eval vm_compute in ("<<<M310>>>" ++ check (runes_of_ascii "
-MetaData A {}
+root packet newOrder {
+    orderItem,
+    u8 x,
+}
 ")).
-Eval vm_compute in ("<<<M241>>>" ++ check (runes_of_ascii "/// triple
+Eval vm_compute in ("<<<M802>>>" ++ check (runes_of_ascii "packet A {
+  match k as n {
+    [""a"", ""bb"", ""c c"", ""d""] : B,
+    2 : C
+  },
+}")).
+Eval vm_compute in ("<<<M1553>>>" ++ check (runes_of_ascii "
+
+  packet 
+body	{i32
+
+    f32a
+
+`{ , }`
+    ,} 
+
+    // c
+options {} ")).
+Eval vm_compute in ("<<<M801>>>" ++ check (runes_of_ascii "packet A {
+  match k as n {
+    [1, 22, 007, 4] : B
+    2 : C
+  },
+}")).
+Eval vm_compute in ("<<<M534>>>" ++ check (runes_of_ascii "packet uint8x
+{ match pack
+    as msg_type	{
+    0123456789 :	")).
+Eval vm_compute in ("<<<M751>>>" ++ check (runes_of_ascii "options @calculatedFrom( repeat } [ @tag( uint32 char[] ] :")).
+Eval vm_compute in ("<<<M1245>>>" ++ check (runes_of_ascii "root
+    packet	P
+{repeat
+
+char 
+cs  ,u8
+
+    x ,} ")).
+Eval vm_compute in ("<<<M1213>>>" ++ check (runes_of_ascii "packet body { i32 f32a `{ , }` , } // c
+options { }")).
+Eval vm_compute in ("<<<M7>>>" ++ check (runes_of_ascii "options {  metadata = ""a\\""// @lengthOf(
+;}
 ")).
-Eval vm_compute in ("<<<M1035>>>" ++ check (runes_of_ascii "// c" ++ [12]%N)).
+Eval vm_compute in ("<<<M940>>>" ++ check (runes_of_ascii "root packet A {
+    u8 x `a
+    b
+  c`,
+}")).
+Eval vm_compute in ("<<<M1522>>>" ++ check (runes_of_ascii "options {
+    T = '0';
+    A = u8;
+}")).
+Eval vm_compute in ("<<<M952>>>" ++ check (runes_of_ascii "root packet A {
+    u8 x `x
+`,
+}")).
+Eval vm_compute in ("<<<M998>>>" ++ check (runes_of_ascii "packet A {
+ u8 x `d" ++ [5760]%N ++ runes_of_ascii "`, // c" ++ [5760]%N ++ runes_of_ascii "
+}")).
+Eval vm_compute in ("<<<M947>>>" ++ check (runes_of_ascii "packet A {
+    u8 x `x
+`,
+}")).
+Eval vm_compute in ("<<<M1495>>>" ++ check (runes_of_ascii "  packet 
+A	{	}// c" ++ [65279]%N ++ runes_of_ascii "
+ 
+")).
+Eval vm_compute in ("<<<M1721>>>" ++ check (runes_of_ascii "packet x {
+    // c
+}")).
+Eval vm_compute in ("<<<M976>>>" ++ check (runes_of_ascii "packet A {
+}
+// c ")).
+Eval vm_compute in ("<<<M1057>>>" ++ check (runes_of_ascii "// c" ++ [6158]%N ++ runes_of_ascii "
+packet A {
+}")).
+Eval vm_compute in ("<<<M1227>>>" ++ check (runes_of_ascii "packet
+// c
+x { }")).
+Eval vm_compute in ("<<<M3>>>" ++ check (runes_of_ascii "options {}
+
+")).
+Eval vm_compute in ("<<<M1015>>>" ++ check (runes_of_ascii "// c" ++ [8233]%N)).
+Eval vm_compute in ("<<<M72>>>" ++ check (@nil rune)).
